@@ -103,25 +103,26 @@ theorem take_hdr (p : RawPkt) (h : WF p) (tail : Bytes) :
 
 /-- the filter skip loop on a well-framed input: stops at the first matching packet, positioned
     at that packet's own offset, with the input positioned at its payload -/
-theorem filterLoop_spec (src : Src) (t : Filter) (ps : List RawPkt) (hwf : ∀ p ∈ ps, WF p) :
-    ∀ (s : ScanSt) (acc : List InMsg), s.rest = bytesOf ps →
+theorem filterLoop_spec (src : Src) (t : Filter) (ps : List RawPkt) (hwf : ∀ p ∈ ps, WF p)
+    (tail : Bytes) (htail : tail.length < 64) :
+    ∀ (s : ScanSt) (acc : List InMsg), s.rest = bytesOf ps ++ tail →
       match firstMatch (some t) s.pos ps with
       | none => (filterLoop src t s acc).2.2 = .error .eof
       | some (o', p, post) =>
         (filterLoop src t s acc).2.2 = .ok p.rdh ∧
-        (filterLoop src t s acc).1.rest = p.payload ++ bytesOf post ∧
+        (filterLoop src t s acc).1.rest = p.payload ++ (bytesOf post ++ tail) ∧
         (filterLoop src t s acc).1.pos = o' := by
   induction ps with
   | nil =>
     intro s acc hs
-    simp only [bytesOf, List.flatMap_nil] at hs
+    simp only [bytesOf, List.flatMap_nil, List.nil_append] at hs
     rw [filterLoop]
-    simp [firstMatch, hs]
+    simp [firstMatch, hs, htail]
   | cons p ps ih =>
     intro s acc hs
     have hp := hwf p (by simp)
-    rw [bytesOf_cons] at hs
-    obtain ⟨ht, hd, hl⟩ := take_hdr p hp (p.payload ++ bytesOf ps)
+    rw [bytesOf_cons, List.append_assoc, List.append_assoc] at hs
+    obtain ⟨ht, hd, hl⟩ := take_hdr p hp (p.payload ++ (bytesOf ps ++ tail))
     rw [filterLoop]
     simp only [hs, hl, ↓reduceDIte, ht, hd]
     have hok := offsetOk_of_wf p hp
@@ -130,17 +131,17 @@ theorem filterLoop_spec (src : Src) (t : Filter) (ps : List RawPkt) (hwf : ∀ p
     by_cases hm : t.matches (decodeRdh p.hdr) = true
     · simp [firstMatch, filterMatches, RawPkt.rdh, hm, ScanSt.seeRdh]
     · have hoff : (decodeRdh p.hdr).offsetNext = 64 + p.payload.length := hp.off
-      have hseek : seekOk src (ScanSt.seeRdh { s with rest := p.payload ++ bytesOf ps } (decodeRdh p.hdr))
+      have hseek : seekOk src (ScanSt.seeRdh { s with rest := p.payload ++ (bytesOf ps ++ tail) } (decodeRdh p.hdr))
           (decodeRdh p.hdr).offsetNext = true := by
         cases src <;> simp [seekOk, ScanSt.seeRdh, hoff]
       simp only [hm, Bool.false_eq_true, ↓reduceIte, hseek, Bool.not_true]
-      have hrest : (seekNext (ScanSt.seeRdh { s with rest := p.payload ++ bytesOf ps } (decodeRdh p.hdr))
-          (decodeRdh p.hdr).offsetNext).rest = bytesOf ps := by
+      have hrest : (seekNext (ScanSt.seeRdh { s with rest := p.payload ++ (bytesOf ps ++ tail) } (decodeRdh p.hdr))
+          (decodeRdh p.hdr).offsetNext).rest = bytesOf ps ++ tail := by
         simp [seekNext, ScanSt.seeRdh, hoff]
-      have hpos : (seekNext (ScanSt.seeRdh { s with rest := p.payload ++ bytesOf ps } (decodeRdh p.hdr))
+      have hpos : (seekNext (ScanSt.seeRdh { s with rest := p.payload ++ (bytesOf ps ++ tail) } (decodeRdh p.hdr))
           (decodeRdh p.hdr).offsetNext).pos = s.pos + p.size := by
         simp [seekNext, ScanSt.seeRdh, hoff, RawPkt.size]
-      have := ih (fun q hq => hwf q (by simp [hq])) _ (acc ++ ScanSt.seeMsgs { s with rest := p.payload ++ bytesOf ps } (decodeRdh p.hdr)) hrest
+      have := ih (fun q hq => hwf q (by simp [hq])) _ (acc ++ ScanSt.seeMsgs { s with rest := p.payload ++ (bytesOf ps ++ tail) } (decodeRdh p.hdr)) hrest
       rw [hpos] at this
       simp only [firstMatch, filterMatches, RawPkt.rdh, hm, Bool.false_eq_true, ↓reduceIte]
       exact this
@@ -165,21 +166,22 @@ theorem firstMatch_bytes_len (f : Option Filter) (ps : List RawPkt) (hwf : ∀ p
       omega
 
 theorem loadRdh_spec (cfg : ScanCfg) (ps : List RawPkt) (hwf : ∀ p ∈ ps, WF p)
-    (s : ScanSt) (hs : s.rest = bytesOf ps) :
+    (tail : Bytes) (htail : tail.length < 64)
+    (s : ScanSt) (hs : s.rest = bytesOf ps ++ tail) :
     match firstMatch cfg.filter s.pos ps with
     | none => (loadRdh cfg s).2.2 = .error .eof
     | some (o', p, post) =>
       (loadRdh cfg s).2.2 = .ok p.rdh ∧
-      (loadRdh cfg s).1.rest = p.payload ++ bytesOf post ∧
+      (loadRdh cfg s).1.rest = p.payload ++ (bytesOf post ++ tail) ∧
       (loadRdh cfg s).1.pos = o' := by
   cases ps with
   | nil =>
-    simp only [bytesOf, List.flatMap_nil] at hs
-    simp [firstMatch, loadRdh, hs]
+    simp only [bytesOf, List.flatMap_nil, List.nil_append] at hs
+    simp [firstMatch, loadRdh, hs, htail]
   | cons p ps =>
     have hp := hwf p (by simp)
-    rw [bytesOf_cons] at hs
-    obtain ⟨ht, hd, hl⟩ := take_hdr p hp (p.payload ++ bytesOf ps)
+    rw [bytesOf_cons, List.append_assoc, List.append_assoc] at hs
+    obtain ⟨ht, hd, hl⟩ := take_hdr p hp (p.payload ++ (bytesOf ps ++ tail))
     have hok := offsetOk_of_wf p hp
     simp only [RawPkt.rdh] at hok
     have hoff : (decodeRdh p.hdr).offsetNext = 64 + p.payload.length := hp.off
@@ -190,16 +192,16 @@ theorem loadRdh_spec (cfg : ScanCfg) (ps : List RawPkt) (hwf : ∀ p ∈ ps, WF 
     | some t =>
       by_cases hm : t.matches (decodeRdh p.hdr) = true
       · simp [firstMatch, filterMatches, RawPkt.rdh, hm, ScanSt.seeRdh]
-      · have hseek : seekOk cfg.src (ScanSt.seeRdh { s with rest := p.payload ++ bytesOf ps } (decodeRdh p.hdr))
+      · have hseek : seekOk cfg.src (ScanSt.seeRdh { s with rest := p.payload ++ (bytesOf ps ++ tail) } (decodeRdh p.hdr))
             (decodeRdh p.hdr).offsetNext = true := by
           cases cfg.src <;> simp [seekOk, ScanSt.seeRdh, hoff]
-        have hrest : (seekNext (ScanSt.seeRdh { s with rest := p.payload ++ bytesOf ps } (decodeRdh p.hdr))
-            (decodeRdh p.hdr).offsetNext).rest = bytesOf ps := by
+        have hrest : (seekNext (ScanSt.seeRdh { s with rest := p.payload ++ (bytesOf ps ++ tail) } (decodeRdh p.hdr))
+            (decodeRdh p.hdr).offsetNext).rest = bytesOf ps ++ tail := by
           simp [seekNext, ScanSt.seeRdh, hoff]
-        have hpos : (seekNext (ScanSt.seeRdh { s with rest := p.payload ++ bytesOf ps } (decodeRdh p.hdr))
+        have hpos : (seekNext (ScanSt.seeRdh { s with rest := p.payload ++ (bytesOf ps ++ tail) } (decodeRdh p.hdr))
             (decodeRdh p.hdr).offsetNext).pos = s.pos + p.size := by
           simp [seekNext, ScanSt.seeRdh, hoff, RawPkt.size]
-        have hfl := filterLoop_spec cfg.src t ps (fun q hq => hwf q (by simp [hq])) _ [] hrest
+        have hfl := filterLoop_spec cfg.src t ps (fun q hq => hwf q (by simp [hq])) tail htail _ [] hrest
         rw [hpos] at hfl
         simp only [hm, Bool.false_eq_true, ↓reduceIte, hseek, Bool.not_true]
         simp only [firstMatch, filterMatches, RawPkt.rdh, hm, Bool.false_eq_true, ↓reduceIte]
@@ -223,14 +225,15 @@ theorem loadRdh_spec (cfg : ScanCfg) (ps : List RawPkt) (hwf : ∀ p ∈ ps, WF 
           exact ⟨rfl, h2, h3⟩
 
 theorem loadCdp_spec (cfg : ScanCfg) (ps : List RawPkt) (hwf : ∀ p ∈ ps, WF p)
-    (s : ScanSt) (hs : s.rest = bytesOf ps) :
+    (tail : Bytes) (htail : tail.length < 64)
+    (s : ScanSt) (hs : s.rest = bytesOf ps ++ tail) :
     match firstMatch cfg.filter s.pos ps with
     | none => ∃ e, (loadCdp cfg s).2.2 = .error e ∧ e = .eof
     | some (o', p, post) =>
       (loadCdp cfg s).2.2 = .ok (mkPacket cfg.skipPayload (o', p)) ∧
-      (loadCdp cfg s).1.rest = bytesOf post ∧
+      (loadCdp cfg s).1.rest = bytesOf post ++ tail ∧
       (loadCdp cfg s).1.pos = o' + p.size := by
-  have h := loadRdh_spec cfg ps hwf s hs
+  have h := loadRdh_spec cfg ps hwf tail htail s hs
   generalize hfm : firstMatch cfg.filter s.pos ps = fm at h
   unfold loadCdp
   generalize loadRdh cfg s = r at h
@@ -266,12 +269,13 @@ theorem loadCdp_spec (cfg : ScanCfg) (ps : List RawPkt) (hwf : ∀ p ∈ ps, WF 
     · have hseek : seekOk cfg.src s1 p.rdh.offsetNext = true := by
         cases cfg.src <;> simp [seekOk, h2, hoff]
       simp [hskip, hseek, seekNext, h2, h3, hoff, mkPacket, RawPkt.size]
-    · have hlen : ¬ (p.payload.length + (bytesOf post).length < p.payload.length) := by omega
+    · have hlen : ¬ (p.payload.length + ((bytesOf post).length + tail.length) < p.payload.length) := by omega
       simp [hskip, h2, h3, hsz, mkPacket, RawPkt.size, hoff, hlen]
 
 /-- the scan loop delivers exactly the expected packets, from any reached position -/
-theorem scanLoop_spec (cfg : ScanCfg) : ∀ (n : Nat) (ps : List RawPkt), ps.length ≤ n →
-    (∀ p ∈ ps, WF p) → ∀ (s : ScanSt) (pk : List Packet) (ms : List InMsg), s.rest = bytesOf ps →
+theorem scanLoop_spec (cfg : ScanCfg) (tail : Bytes) (htail : tail.length < 64) :
+    ∀ (n : Nat) (ps : List RawPkt), ps.length ≤ n →
+    (∀ p ∈ ps, WF p) → ∀ (s : ScanSt) (pk : List Packet) (ms : List InMsg), s.rest = bytesOf ps ++ tail →
       (scanLoop cfg s pk ms).packets = pk ++ expected cfg s.pos ps ∧
       (scanLoop cfg s pk ms).endedBy = .eof := by
   intro n
@@ -280,7 +284,7 @@ theorem scanLoop_spec (cfg : ScanCfg) : ∀ (n : Nat) (ps : List RawPkt), ps.len
     intro ps hlen hwf s pk ms hs
     have : ps = [] := List.eq_nil_of_length_eq_zero (by omega)
     subst this
-    have h := loadCdp_spec cfg [] hwf s hs
+    have h := loadCdp_spec cfg [] hwf tail htail s hs
     simp only [firstMatch] at h
     obtain ⟨e, he, rfl⟩ := h
     rw [scanLoop]
@@ -291,7 +295,7 @@ theorem scanLoop_spec (cfg : ScanCfg) : ∀ (n : Nat) (ps : List RawPkt), ps.len
     simp [expected, chain]
   | succ n ih =>
     intro ps hlen hwf s pk ms hs
-    have h := loadCdp_spec cfg ps hwf s hs
+    have h := loadCdp_spec cfg ps hwf tail htail s hs
     rw [expected_unfold]
     generalize hfm : firstMatch cfg.filter s.pos ps = fm at h
     rw [scanLoop]
@@ -309,7 +313,8 @@ theorem scanLoop_spec (cfg : ScanCfg) : ∀ (n : Nat) (ps : List RawPkt), ps.len
       obtain ⟨h1, h2, h3⟩ := h
       subst h1
       have hlt := firstMatch_bytes_len cfg.filter ps hwf s.pos o' p post hfm
-      have hguard : s1.rest.length < s.rest.length := by rw [h2, hs]; omega
+      have hguard : s1.rest.length < s.rest.length := by
+        rw [h2, hs]; simp only [List.length_append]; omega
       simp only [hguard, ↓reduceIte]
       have hpl := firstMatch_post_len cfg.filter s.pos ps o' p post hfm
       have hwf' : ∀ q ∈ post, WF q := by
@@ -337,9 +342,21 @@ theorem scanLoop_spec (cfg : ScanCfg) : ∀ (n : Nat) (ps : List RawPkt), ps.len
     count (the reader's batching is invisible). -/
 theorem scan_exact (cfg : ScanCfg) (ps : List RawPkt) (hwf : ∀ p ∈ ps, WF p) :
     (scanAll cfg (bytesOf ps)).packets = expected cfg 0 ps := by
-  have h := scanLoop_spec cfg ps.length ps (Nat.le_refl _) hwf { rest := bytesOf ps } [] [] rfl
+  have h := scanLoop_spec cfg [] (by simp) ps.length ps (Nat.le_refl _) hwf { rest := bytesOf ps } [] []
+    (by simp)
   unfold scanAll
-  simp only [h.2, h.1]
+  simp only [h.1]
+  simp
+
+/-- **prefix form (used by C18)**: if the input ends inside an RDH (fewer than 64 trailing bytes
+    after the last complete packet), exactly the complete packets are delivered — each with the
+    same offset, header and payload as in the untruncated input -/
+theorem scan_complete_prefix (cfg : ScanCfg) (ps : List RawPkt) (hwf : ∀ p ∈ ps, WF p)
+    (tail : Bytes) (htail : tail.length < 64) :
+    (scanAll cfg (bytesOf ps ++ tail)).packets = expected cfg 0 ps := by
+  have h := scanLoop_spec cfg tail htail ps.length ps (Nat.le_refl _) hwf { rest := bytesOf ps ++ tail } [] [] rfl
+  unfold scanAll
+  simp only [h.1]
   simp
 
 /-- file and pipe deliver the same packets on well-framed input -/
